@@ -53,6 +53,11 @@ TRUSTED = [
     "ClasswiseSubsetWrapper: percent * 0-dim int64 tensor is evaluated by torch in binary32; modelled with SpecFloat's "
     "format-parametric SFmul (prec 24, emax 128; instance ModelFloat.float32_ops), contract clauses evaluated per "
     "case like the binary64 ones",
+    "label representation: the Coq model and the oracle see the labels as integers; that the real selection does not "
+    "depend on the objects carrying them (Python int / numpy scalar / 0-dim or 1-element tensor from getitem_class; list "
+    "/ ndarray / tensor of dtype int64, int32, uint8, int8, int16 from getall_class) is checked per case: model and "
+    "oracle are applied to the selection made on the generated representation, and the same case is run on a dataset "
+    "speaking plain Python ints / int64 (same generator states) and must select the same, also through a second wrapper",
     "selection_is_function_of_args_and_draws is true of the model by construction; that the real constructors read "
     "nothing but labels, arguments and their own seeded generator is checked per case: two constructions under "
     "different states of ALL THREE global generators (numpy legacy, torch, Python random), the complete state of "
@@ -66,13 +71,21 @@ TRUSTED = [
 ASSUMPTIONS = [
     "labels are -1 (unlabeled, the convention of utils/class_counts.py) or in [0, C) for the class-based wrappers "
     "(a few cases with a label C are run for model-vs-code agreement only)",
+    "getitem_class returns one integer per sample; a 1-element tensor is accepted by the wrappers that never put the "
+    "labels into a numpy array (all but ClassFilterWrapper / FewshotWrapper, which raise IndexError on it); unsigned "
+    "label dtypes only on datasets without unlabeled (-1) samples; every label fits the dataset's label dtype "
+    "(C <= 256 for uint8, C <= 128 for int8)",
     "start_index >= 0, num_shots >= 0; non-empty dataset for OversamplingWrapper",
     "seeds are None or non-negative integers (what numpy.random.default_rng accepts); FewshotWrapper(seed=None) "
     "seeds from OS entropy by numpy's definition: only the structural promise is checked there",
 ]
 RULE = ("class layouts of size 0-64 (thorough -200) over C in 1..6 with absent, single-sample, dominant classes and "
         "unlabeled (-1) samples; six label providers (no getall_class / copy as list / copy as tensor / the dataset's own "
-        "list / ndarray / tensor); class filters by number (incl. -1 and a non-class) and by NAME: class_names unique or "
+        "list / ndarray / tensor); LABEL REPRESENTATION (55 % of the class-based, 15 % of the other cases): getitem_class "
+        "returning Python ints / numpy scalars / 0-dim tensors of dtype int64, int32, uint8, int8, int16 / 1-element tensors "
+        "(not for ClassFilterWrapper / FewshotWrapper), getall_class handing out lists of such elements / ndarrays / tensors "
+        "of these dtypes, 10 % of them with uint8 / int8 labels on 128-300 samples (more than the dtype counts) or over C = 128 "
+        "/ 256 classes with the top label present (the dtype's maximum); class filters by number (incl. -1 and a non-class) and by NAME: class_names unique or "
         "drawn from a few names (several classes per name), incl. '' and names differing in case / blanks only; requested "
         "names known / unknown / variants of known ones / repeated / none / all; a quarter of the cases construct a second "
         "wrapper on top of and next to the first on the same dataset; oversampling layouts with class counts (c, k*c + d), d in -1..1, c incl. 41, 47, 55, 61; "
@@ -97,6 +110,41 @@ PROVIDERS = ["none", "list", "torch", "own_list", "own_np", "own_torch"]
 OWN_STORAGE = {"own_list": "list", "own_np": "ndarray", "own_torch": "tensor"}
 
 
+# label representations.  getitem_class returns a Python int (the default), a numpy integer scalar, a 0-dim tensor or
+# (where the constructors accept it) a 1-element tensor; getall_class hands out a list of such elements / an ndarray /
+# a tensor of the dtype.  The selection must not depend on any of this.
+DTYPES = ["int64", "int32", "uint8", "int8", "int16"]
+ITEM_REPS = ["int"] + [k + "_" + d for k in ("np", "t0") for d in DTYPES] + ["t1_int64", "t1_int32", "t1_uint8"]
+# constructors that read getitem_class into np.array(...) and index it with one subscript: a 1-element tensor per
+# sample makes that array two-dimensional (IndexError on HEAD) - outside the domain
+NO_T1 = ("class_filter", "fewshot")
+
+
+def rep_dtype(rep):
+    return "int64" if rep == "int" else rep.split("_")[1]
+
+
+DTYPE_RANGE = {"uint8": (0, 255), "int8": (-128, 127), "int16": (-2 ** 15, 2 ** 15 - 1)}
+
+
+def effective_rep(rep, labels):
+    """a dtype that cannot hold a label of the dataset (uint8: -1 = unlabeled; int8: 128) is not what such a dataset
+    keeps its labels in: int16 instead"""
+    lo, hi = DTYPE_RANGE.get(rep_dtype(rep), (None, None))
+    if lo is not None and any(not lo <= v <= hi for v in labels):
+        return rep.split("_")[0] + "_int16"
+    return rep
+
+
+def plain_rep(case):
+    """the same case on a dataset that speaks plain Python ints / int64"""
+    return {k: v for k, v in case.items() if k not in ("rep", "arep")}
+
+
+def has_rep(case):
+    return case.get("rep", "int") != "int" or case.get("arep", "int") != "int"
+
+
 def default_names(c):
     return ["c%d" % i for i in range(c)]
 
@@ -118,18 +166,37 @@ def _classes():
     from kappadata.wrappers.dataset_wrappers.sort_by_class_wrapper import SortByClassWrapper
     from kappadata.wrappers.dataset_wrappers.subset_wrapper import SubsetWrapper
 
-    class DS(KDDataset):
-        """x = sample id, sampler weight = 2 * id + 1; the labels live in self.store"""
+    np_dt = {"int64": np.int64, "int32": np.int32, "uint8": np.uint8, "int8": np.int8, "int16": np.int16}
+    t_dt = {"int64": torch.int64, "int32": torch.int32, "uint8": torch.uint8, "int8": torch.int8, "int16": torch.int16}
 
-        def __init__(self, classes, n_classes, class_names=None):
+    def conv(rep):
+        """Python int -> the label in the given representation"""
+        if rep == "int":
+            return int
+        kind, dt = rep.split("_")
+        if kind == "np":
+            return np_dt[dt]
+        if kind == "t0":
+            return lambda v: torch.tensor(v, dtype=t_dt[dt])
+        return lambda v: torch.tensor([v], dtype=t_dt[dt])
+
+    class DS(KDDataset):
+        """x = sample id, sampler weight = 2 * id + 1; the labels live in self.store.  rep = what getitem_class returns
+        (Python int / numpy integer scalar / 0-dim tensor / 1-element tensor of some dtype), arep = what the container
+        handed out by getall_class is made of (elements of a list, dtype of an ndarray / tensor)"""
+
+        def __init__(self, classes, n_classes, class_names=None, rep="int", arep="int"):
             super().__init__()
-            self.store = self.make_store([int(c) for c in classes])
+            labels = [int(c) for c in classes]
+            self.rep, self.arep = effective_rep(rep, labels), effective_rep(arep, labels)
+            self.adt = rep_dtype(self.arep)
+            self.to_item = conv(self.rep)
+            self.store = self.make_store(labels)
             self.n_classes = n_classes
             self.names = list(class_names) if class_names is not None else default_names(n_classes)
             self.weights = torch.arange(len(classes), dtype=torch.float64) * 2 + 1
 
-        @staticmethod
-        def make_store(labels):
+        def make_store(self, labels):
             return labels
 
         def state(self):
@@ -146,7 +213,7 @@ def _classes():
             return int(idx) % len(self.store)
 
         def getitem_class(self, idx, ctx=None):
-            return int(self.store[idx])
+            return self.to_item(int(self.store[idx]))
 
         def getshape_class(self):
             return (self.n_classes,)
@@ -160,25 +227,26 @@ def _classes():
 
     class DSList(DS):
         def getall_class(self):
-            return list(self.store)
+            return [conv(self.arep)(v) for v in self.store]
 
     class DSTorch(DS):
         def getall_class(self):
-            return torch.tensor(self.store, dtype=torch.long)
+            return torch.tensor(self.store, dtype=t_dt[self.adt])
 
     class DSOwnList(DS):
+        def make_store(self, labels):
+            return [conv(self.arep)(v) for v in labels]
+
         def getall_class(self):
             return self.store
 
     class DSOwnNumpy(DSOwnList):
-        @staticmethod
-        def make_store(labels):
-            return np.array(labels, dtype=np.int64)
+        def make_store(self, labels):
+            return np.array(labels, dtype=np_dt[self.adt])
 
     class DSOwnTorch(DSOwnList):
-        @staticmethod
-        def make_store(labels):
-            return torch.tensor(labels, dtype=torch.long)
+        def make_store(self, labels):
+            return torch.tensor(labels, dtype=t_dt[self.adt])
 
     class Spy:
         """records what the wrapper's generator returned"""
@@ -295,7 +363,8 @@ class _Session:
     def __init__(self, case):
         K = _classes()
         self.prov = case.get("prov", "list")
-        self.ds = K["ds"][self.prov](case["classes"], case["C"], case.get("class_names"))
+        self.ds = K["ds"][self.prov](case["classes"], case["C"], case.get("class_names"),
+                                     case.get("rep", "int"), case.get("arep", "int"))
         self.snap = self.ds.state()
 
     def verify(self, where):
@@ -482,6 +551,11 @@ def _run_impl(case):
     if case["w"] in SEEDED and case.get("seed") is None and "seed" in case:
         # seed=None = "use the global numpy generator": same global state -> same selection
         obs["same_state"] = _select_under(case, 11, 11, 11)[0]
+    fewshot_entropy = case["w"] == "fewshot" and case.get("seed") is None and "seed" in case
+    if has_rep(case) and not fewshot_entropy:
+        # the selection is a function of the LABELS, not of the objects that carry them: the same case on a dataset whose
+        # getitem_class / getall_class speak plain Python ints / int64 (same global generator states as the first run)
+        obs["plain"], obs["plain_err"], _ = _select_under(plain_rep(case), 11, 11, 11)
     if by_name(case):
         # filtering by name = filtering by number with all classes that carry a requested name
         obs["by_number"], obs["by_number_err"] = _select(dict(case, names=False, cls=named_classes(case)))
@@ -512,7 +586,10 @@ def _run_impl(case):
         for k in ("a", "a_after", "beside", "beside_err", "a_again", "composed_class", "composed_class_err",
                   "composed_weights", "composed_weights_err"):
             obs["multi_" + k] = m.get(k)
-        common_keys = dict(C=case["C"], prov=case.get("prov", "list"), class_names=case.get("class_names"))
+        common_keys = dict(C=case["C"], prov=case.get("prov", "list"), class_names=case.get("class_names"),
+                           rep=case.get("rep", "int"), arep=case.get("arep", "int"))
+        if has_rep(case):
+            obs["plain_composed"], obs["plain_composed_err"] = _select(plain_rep(case), over=over)
         alone = dict(over, classes=[case["classes"][i] for i in out], **common_keys)
         obs["outer_alone"], obs["outer_alone_err"] = _select(alone)
         pristine = dict(over, classes=list(case["classes"]), **common_keys)
@@ -523,6 +600,23 @@ def _run_impl(case):
 # ---------------------------------------------------------------------------
 # independent oracle
 # ---------------------------------------------------------------------------
+def REP_TEXT(rep):
+    if rep == "int":
+        return "Python ints"
+    kind, dt = rep.split("_")
+    return {"np": "numpy %s scalars", "t0": "0-dim %s tensors", "t1": "1-element %s tensors"}[kind] % dt
+
+
+def AREP_TEXT(case):
+    prov, arep = case.get("prov", "list"), case.get("arep", "int")
+    if prov == "none":
+        return "nothing (no getall_class)"
+    own = "the dataset's own " if prov.startswith("own") else "a "
+    if prov in ("list", "own_list"):
+        return own + "list of " + REP_TEXT(arep)
+    return own + ("ndarray" if prov == "own_np" else "tensor") + " of dtype " + rep_dtype(arep)
+
+
 def _labels_ok(case, eff=False, unlabeled=True):
     """every label is a class in [0, C) or (unless unlabeled=False) -1 = unlabeled"""
     c = case["C"]
@@ -556,6 +650,18 @@ def oracle(case, obs):
                     f"generator(s) {obs['global_rng_touched']}")
     if out is not None and any(not 0 <= i < n for i in out):
         return f"{w}: selection {out} leaves the dataset (n={n})"
+    in_domain = not (w == "oversample" and n == 0)
+    if "plain" in obs and in_domain and (obs["plain"] != out or (obs["plain_err"] is None) != (obs["err"] is None)):
+        return (f"{w}: the selection depends on how the dataset represents its labels: getitem_class returning "
+                f"{REP_TEXT(case.get('rep', 'int'))}" + (f", getall_class handing out {AREP_TEXT(case)}" if case.get("prov", "list") != "none" else "")
+                + f" -> {out if out is not None else 'raised ' + str(obs['err'])}; the same labels as Python ints / int64 -> "
+                f"{obs['plain'] if obs['plain'] is not None else 'raised ' + str(obs['plain_err'])}")
+    if "plain_composed" in obs and "composed" in obs and not obs.get("multi_err") and obs["plain_composed"] != obs["composed"]:
+        return (f"{case['over']['w']} over {w}: the selection depends on how the dataset represents its labels "
+                f"(getitem_class: {REP_TEXT(case.get('rep', 'int'))}, getall_class: {AREP_TEXT(case)}): "
+                f"{obs['composed'] if obs['composed'] is not None else 'raised ' + str(obs.get('composed_err'))}; the same labels "
+                f"as Python ints / int64 -> "
+                f"{obs['plain_composed'] if obs['plain_composed'] is not None else 'raised ' + str(obs['plain_composed_err'])}")
     # constructors and accesses are pure (construction_leaves_labels_unchanged): nothing the dataset owns, no wrapper
     # below and no argument is changed by constructing a wrapper or by reading through it
     for e in obs.get("impure") or []:
@@ -845,9 +951,10 @@ def gen_ratio_layout(rng, big=False):
     return cl, c
 
 
-def gen_layout(rng, big=False):
+def gen_layout(rng, big=False, n=None):
     c = rng.choice([1, 2, 2, 3, 3, 4, 5, 6])
-    n = rng.choice([0, 1, 2, 3, 4, 5, 6, 8, 10, 12, 16, 17, 20, 27, 33, 40, 64] if not big else list(range(0, 201)))
+    if n is None:
+        n = rng.choice([0, 1, 2, 3, 4, 5, 6, 8, 10, 12, 16, 17, 20, 27, 33, 40, 64] if not big else list(range(0, 201)))
     style = rng.random()
     if style < 0.25:            # some classes absent
         present = rng.sample(range(c), rng.randint(1, c))
@@ -862,6 +969,17 @@ def gen_layout(rng, big=False):
         cl = sorted(rng.randrange(c) for _ in range(n))
     else:
         cl = [rng.randrange(c) for _ in range(n)]
+    return cl, c
+
+
+def gen_wide_layout(rng):
+    """as many classes as a narrow label dtype can tell apart (128 / 256): the top label is the dtype's maximum (one
+    more overflows, in uint8 it is what -1 converts to)"""
+    c = rng.choice([128, 256, 256])
+    n = rng.choice([1, 2, 3, 5, 8, 12, 20])
+    present = [c - 1] + rng.sample(range(c - 1), rng.randint(0, 3))
+    cl = [rng.choice(present) for _ in range(n)]
+    cl[rng.randrange(n)] = c - 1
     return cl, c
 
 
@@ -945,6 +1063,11 @@ def gen_class_names(rng, c):
     """dataset.class_names: unique, or drawn from a few names (several classes carry the same name, as "crane" and
     "maillot" do in ImageNet), incl. the empty name and names differing in case / white space only"""
     r = rng.random()
+    if c > 6:                                         # many classes: numbered names, a few of them from the pool
+        names = default_names(c)
+        for _ in range(rng.choice([0, 1, 2, 4])):
+            names[rng.randrange(c)] = rng.choice(NAME_POOL)
+        return names
     if r < 0.15:
         return None                                   # the default: c0, c1, ...
     if r < 0.25:
@@ -984,10 +1107,33 @@ def gen_requested(rng, names):
     return req
 
 
+def gen_rep(rng, case, narrow=False):
+    """how the dataset represents its labels: what getitem_class returns and what getall_class hands out"""
+    ok = [r for r in ITEM_REPS if effective_rep(r, case["classes"]) == r]
+    if narrow:
+        ok = [r for r in ok if rep_dtype(r) in ("uint8", "int8")] or ok
+    r = rng.random()
+    if r < 0.35 or case.get("prov") == "none":
+        case["rep"] = rng.choice(ok)
+    elif r < 0.6:
+        case["arep"] = rng.choice(ok)
+    elif r < 0.85:                      # the usual layout: getitem_class returns targets[idx], getall_class targets
+        kind = {"list": "", "own_list": "", "own_np": "np_"}.get(case["prov"], "t0_")
+        el = rng.choice([x for x in ok if x.startswith(kind)] if kind else ok)
+        case["rep"] = case["arep"] = el
+    else:
+        case["rep"], case["arep"] = rng.choice(ok), rng.choice(ok)
+    for k in ("rep", "arep"):
+        if case.get(k) == "int":
+            del case[k]
+
+
 def gen_case(rng, big=False, kind=None):
     case = _gen_case(rng, big, kind)
     if rng.random() < 0.25:
         case["over"] = gen_over(rng, case["C"])
+    if case.get("rep", "").startswith("t1") and (case["w"] in NO_T1 or case.get("over", {}).get("w") in NO_T1):
+        case["rep"] = case["rep"].replace("t1", "t0")
     calls = [c for c in (case, case.get("over")) if c and by_name(c)]
     if calls or rng.random() < 0.1:
         names = gen_class_names(rng, case["C"])
@@ -1000,10 +1146,15 @@ def gen_case(rng, big=False, kind=None):
 
 def _gen_case(rng, big=False, kind=None):
     w = kind or rng.choice(KINDS)
-    if w == "oversample" and rng.random() < 0.35:
+    with_rep = rng.random() < (0.55 if w in CLASS_BASED else 0.15)
+    # narrow label dtypes on datasets with more samples than the dtype can count
+    narrow = with_rep and w in CLASS_BASED and rng.random() < 0.10
+    if narrow and rng.random() < 0.6:
+        cl, c = gen_wide_layout(rng)
+    elif w == "oversample" and rng.random() < 0.35 and not narrow:
         cl, c = gen_ratio_layout(rng, big)
     else:
-        cl, c = gen_layout(rng, big)
+        cl, c = gen_layout(rng, big, n=rng.choice([128, 129, 256, 257, 300]) if narrow else None)
     n = len(cl)
     case = {"w": w, "classes": cl, "C": c, "prov": rng.choice(PROVIDERS)}
     if w in CLASS_BASED and n > 0 and rng.random() < 0.15:
@@ -1014,6 +1165,8 @@ def _gen_case(rng, big=False, kind=None):
     if rng.random() < 0.03 and n > 0 and w in ("oversample", "sort", "intra", "fewshot", "cw_range", "cw_percent"):
         # outside the property's domain (a label that is no class): model-vs-code agreement only
         cl[rng.randrange(n)] = c
+    if with_rep:
+        gen_rep(rng, case, narrow)
     if w == "class_filter":
         case["valid"] = rng.random() < 0.5
         case["cls"] = [rng.randrange(-1, c + 1) for _ in range(rng.choice([0, 1, 1, 2, 3]))]
@@ -1092,6 +1245,11 @@ def features(case, obs):
     if case.get("over"):
         yield "over=" + case["over"]["w"] + ("" if obs.get("composed") is not None else "(raised)" if "composed" in obs else "(n/a)")
     yield "provider=" + case.get("prov", "list")
+    yield "getitem_class=" + case.get("rep", "int")
+    yield "C=" + ("<=6" if case["C"] <= 6 else str(case["C"]))
+    if case.get("prov", "list") != "none":
+        yield "getall_class=" + ("list of " + case.get("arep", "int") if case.get("prov", "list") in ("list", "own_list")
+                                 else rep_dtype(case.get("arep", "int")))
     if obs.get("impure"):
         yield "impure=" + obs["impure"][0]["what"]
     for call, tag in ((case, "names"), (case.get("over"), "over_names")):
@@ -1130,7 +1288,7 @@ def nontrivial_key(case, obs):
     if not obs.get("out"):
         return None
     return (case["w"], tuple(case["classes"]), case["C"],
-            tuple(sorted((k, str(v)) for k, v in case.items() if k not in ("w", "classes", "C", "prov"))))
+            tuple(sorted((k, str(v)) for k, v in case.items() if k not in ("w", "classes", "C", "prov", "rep", "arep"))))
 
 
 def shrink(case):
@@ -1173,6 +1331,11 @@ def shrink(case):
             yield dict(case, **{k: 0.5})
     if case.get("prov", "list") != "list":
         yield dict(case, prov="list")
+    for k in ("rep", "arep"):
+        if k in case:
+            yield {a: b for a, b in case.items() if k != a}
+            if rep_dtype(case[k]) != "int64":
+                yield dict(case, **{k: case[k].split("_")[0] + "_int64"})
     if "over" in case:
         yield {k: v for k, v in case.items() if k != "over"}
     if case.get("seed_np"):
